@@ -128,6 +128,17 @@ def run(ctx, report):
                 if lf2 and rf2:
                     R1.violation(c, '%s.__eq__:%s' % (c, norm(n)), '%s.__eq__ compares self with self' % c, where(mod, n))
                     bad = True
+        # a list-valued field compared element by element needs a length comparison as well (zip/enumerate stop at the shorter list)
+        for f in M.fields[c]:
+            whole = any(isinstance(n, ast.Compare) and len(n.ops) == 1 and u(n.left) == 'self.%s' % f and u(n.comparators[0]) == '%s.%s' % (other, f) for n in ast.walk(fn))
+            elementwise = [n for n in ast.walk(fn) if isinstance(n, ast.For) and ('self.%s' % f) in u(n.iter)]
+            if elementwise and not whole:
+                has_len = any(isinstance(n, ast.Compare) and len(n.ops) == 1 and {u(n.left), u(n.comparators[0])} == {'len(self.%s)' % f, 'len(%s.%s)' % (other, f)}
+                              for n in ast.walk(fn))
+                if not has_len:
+                    R1.violation(c, '%s.__eq__:%s:length' % (c, f), '%s.__eq__ compares %s element by element without comparing the lengths: a node equals every node whose %s is a '
+                                 'proper prefix (or extension) of its own' % (c, f, f), where(mod, elementwise[0]), witness='ExprOp("&", a, b) == ExprOp("&", a, b, c)')
+                    bad = True
         # class test
         cls_test = False
         for n in ast.walk(fn):
@@ -344,6 +355,8 @@ def _check_ctor_call(R, mod, c, meth, call, M):
 
 
 MUTANTS = [
+    ('op-eq-zip', 'miasmx/expression/expression.py', "        if len(self.args) != len(a.args):\n            return False\n        for i, x in enumerate(self.args):\n            if not x == a.args[i]:\n                return False\n        return True\n    def __hash__(self):\n        h = hash(self.op)",
+     "        for x, y in zip(self.args, a.args):\n            if not x == y:\n                return False\n        return True\n    def __hash__(self):\n        h = hash(self.op)", 'C15.D1'),
     ('slice-eq-stop', 'miasmx/expression/expression.py',
      'return self.arg == a.arg and self.start == a.start and self.stop == a.stop',
      'return self.arg == a.arg and self.start == a.start', 'C15.D1'),
